@@ -196,6 +196,16 @@ def run_isolated(mod, tier, seed, what="run", args=None):
             # buffer is garbage and the harness iterates over it): same meaning as a killed child
             os._exit(99)
         except BaseException:
+            # an exception raised INSIDE the library (innermost frame under /repo) in a place where the harness did not expect
+            # one: the code no longer behaves like the model on some generated input - same meaning as a died child; an
+            # exception raised by the harness's own code stays an infrastructure error (exit 2)
+            tb = sys.exc_info()[2]
+            while tb is not None and tb.tb_next is not None:
+                tb = tb.tb_next
+            inner = tb.tb_frame.f_code.co_filename if tb is not None else ""
+            if os.path.realpath(inner).startswith(os.path.realpath(common.REPO) + os.sep):
+                sys.stderr.write(traceback.format_exc()[-1500:])
+                os._exit(98)
             wr.send_bytes(pickle.dumps(("exc", traceback.format_exc())))
         finally:
             wr.close()
